@@ -289,7 +289,7 @@ func judgeStop(res *check.Result, sc *world.Scenario, co *childOut, prop string)
 		pwm, mode := readFinal(co.WorldDir, sc, f)
 		hasMode := f.Kind == "hwmon" && !f.Driver.NoEnable
 		orig := f.Driver.InitMode
-		ok := pwm == 255 || (hasMode && mode == orig && orig != 1)
+		ok := handedBack(f, pwm, mode)
 		st := fmt.Sprintf("kind=%s origMode=%s modeSupport=%v", f.Kind, modeClass(orig), hasMode)
 		res.State(st + fmt.Sprintf("|restoreFaults=%v|signals=%s", hasRestoreFault(sc, f.ID), countClass(signals)))
 		if ok {
@@ -372,4 +372,19 @@ func readFinal(worldDir string, sc *world.Scenario, f *world.FanSpec) (pwm, mode
 		}
 	}
 	return
+}
+
+// handedBack is the final-state predicate of C03: the fan is in the control
+// mode it had when fan2go started (unless that was manual mode), or at full
+// speed: PWM 255, or pwm_enable 0, which by the hwmon ABI (and fan2go's own
+// ControlModeDisabled) means "no control, fan at full speed".
+func handedBack(f *world.FanSpec, pwm, mode int) bool {
+	hasMode := f.Kind == "hwmon" && !f.Driver.NoEnable
+	if pwm == 255 {
+		return true
+	}
+	if hasMode && mode == 0 {
+		return true
+	}
+	return hasMode && mode == f.Driver.InitMode && f.Driver.InitMode != 1
 }
